@@ -13,6 +13,7 @@ import ast, itertools, re, textwrap
 
 from ..core import AnalysisError, node_src
 from ..engine.pyindex import walk_no_nested
+from ..engine.cutil import strip_c_comments
 
 
 # ======================================================================================= whitelisted evaluator
@@ -340,7 +341,14 @@ def _import_stub(name):
 
 
 def _txt(n):
-    return ast.unparse(n)
+    t = getattr(n, '_sa_txt', None)
+    if t is None:
+        t = ast.unparse(n)
+        try:
+            n._sa_txt = t
+        except AttributeError:
+            pass
+    return t
 
 
 # ======================================================================================= Tempita
@@ -578,7 +586,7 @@ def tpl_compared_literals(tree, var):
             if not isinstance(c, ast.Compare) or len(c.ops) != 1:
                 continue
             l, r, op = c.left, c.comparators[0], c.ops[0]
-            src = node_src(c, 80)
+            src = node_src(n if kind == 'expr' else c, 120)
             for a, b in ((l, r), (r, l)):
                 if isinstance(a, ast.Name) and a.id == var:
                     if isinstance(op, (ast.Eq, ast.NotEq)) and isinstance(b, ast.Constant) and isinstance(b.value, str):
@@ -792,12 +800,72 @@ def formula_leaves(tests):
     return leaves
 
 
-def truth_table(tests, typed):
+def _leaf_keys(test, typed, sample):
+    """(typed expressions with more than one value, opaque atoms) a test depends on."""
+    tk, at = set(), set()
+    for n in ast.walk(test):
+        if isinstance(n, ast.expr):
+            t = _txt(n)
+            if t in typed and len(typed[t]) > 1:
+                tk.add(t)
+    for leaf in formula_leaves([test]):
+        try:
+            Ev(subst=sample).ev(leaf)
+        except Unknown:
+            at.add(_txt(leaf))
+    return tk, at
+
+
+def truth_table(tests, typed, focus=None):
     """Enumerate every valuation of `typed` (text of a sub-expression -> finite list of values) and of the remaining
-    opaque boolean leaves; yield (subst, atoms, [value of each test])."""
+    opaque boolean leaves; yield (subst, atoms, [value of each test]).
+    With focus=(conds, keys): the tests are the conjuncts `conds` [(test, truth)]; only the connected component of
+    conjuncts that (transitively, through shared leaves) involves one of `keys` is enumerated -- the other components are
+    independent and only checked for satisfiability (nothing is yielded when one of them is unsatisfiable); the value
+    list then has None for conjuncts outside the component, which conj_holds() skips."""
     tests = list(tests)
     keys = sorted(typed)
     sample = {k: typed[k][0] for k in keys}
+    if focus is not None:
+        conds, fkeys = focus
+        deps = [_leaf_keys(t, typed, sample) for t in tests]
+        comp = set(fkeys)
+        chosen = set()
+        changed = True
+        while changed:
+            changed = False
+            for i, (tk, at) in enumerate(deps):
+                if i not in chosen and ((tk | at) & comp):
+                    chosen.add(i)
+                    comp |= tk | at
+                    changed = True
+        rest = [i for i in range(len(tests)) if i not in chosen]
+        # independent remainder: satisfiable?  (decomposed again into its own components)
+        todo = list(rest)
+        while todo:
+            seed = todo[0]
+            grp, c2 = {seed}, set(deps[seed][0] | deps[seed][1])
+            changed = True
+            while changed:
+                changed = False
+                for i in todo:
+                    if i not in grp and (deps[i][0] | deps[i][1]) & c2:
+                        grp.add(i)
+                        c2 |= deps[i][0] | deps[i][1]
+                        changed = True
+            todo = [i for i in todo if i not in grp]
+            sub_conds = [conds[i] for i in sorted(grp)]
+            sub_typed = {k: (typed[k] if k in c2 else typed[k][:1]) for k in typed}
+            if not any(conj_holds(sub_conds, vals) for _, _, vals in truth_table([t for t, _ in sub_conds], sub_typed)):
+                return
+        sub_typed = {k: (typed[k] if (k in comp or len(typed[k]) == 1) else typed[k][:1]) for k in typed}
+        order = sorted(chosen)
+        for subst, av, vals in truth_table([tests[i] for i in order], sub_typed):
+            full = [None] * len(tests)
+            for i, v in zip(order, vals):
+                full[i] = v
+            yield subst, av, full
+        return
     atoms = []
     for leaf in formula_leaves(tests):
         try:
@@ -823,7 +891,7 @@ def truth_table(tests, typed):
 
 
 def conj_holds(conds, vals):
-    return all(v == truth for (_, truth), v in zip(conds, vals))
+    return all(v is None or v == truth for (_, truth), v in zip(conds, vals))
 
 
 def int_constants(nodes):
@@ -1152,3 +1220,153 @@ def tree_text(t):
     if t[0] == 'call':
         return '%s(%s)' % (tree_text(t[1]), ', '.join(tree_text(x) for x in t[2:]))
     return repr(t)
+
+
+def clang_functions(source, prefix):
+    """One clang run for several snippet functions whose names start with `prefix` -> {name: FunctionDecl JSON}.
+    (Same mechanism as sa.engine.absint.clang_function_ast, which returns one function per clang process.)"""
+    import json, os, subprocess, tempfile
+    with tempfile.TemporaryDirectory(prefix='sa_clang_') as d:
+        p = os.path.join(d, 't.c')
+        with open(p, 'w') as f:
+            f.write(source)
+        try:
+            r = subprocess.run(['clang', '-fsyntax-only', '-w', '-Xclang', '-ast-dump=json', '-Xclang', '-ast-dump-filter=' + prefix, p],
+                               stdout=subprocess.PIPE, stderr=subprocess.PIPE, text=True, timeout=60)
+        except (OSError, subprocess.TimeoutExpired) as e:
+            raise AnalysisError('clang not runnable: %s' % e)
+        if r.returncode != 0:
+            raise AnalysisError('clang cannot parse the declared-copy snippets: %s' % r.stderr[-400:])
+        txt = r.stdout
+    dec = json.JSONDecoder()
+    out, i = {}, 0
+    while i < len(txt):
+        j = txt.find('{', i)
+        if j < 0:
+            break
+        try:
+            d, k = dec.raw_decode(txt, j)
+        except ValueError:
+            i = j + 1
+            continue
+        i = k
+        if d.get('kind') == 'FunctionDecl' and str(d.get('name', '')).startswith(prefix) and any(c.get('kind') == 'CompoundStmt' for c in d.get('inner', [])):
+            out[d['name']] = d
+    return out
+
+
+# ----------------------------------------------------------------------------------------------------------------- SIB1
+COPY_RE = re.compile(r'see\s+(\w+\.c)\s*::\s*(\w+)\s+utility code')
+
+
+def original_source(ctx, ufile, section, fname):
+    """C text of the original helper instantiated for `long`, renamed to fname."""
+    d = ctx.cat.files.get(ufile, {}).get(section, {}).get('impl')
+    if d is None:
+        raise AnalysisError('declared original %s::%s does not exist' % (ufile, section))
+    text = strip_c_comments(d.raw)
+    text = text.replace('%(type)s', 'long').replace('%(type_name)s', 'long').replace('%%', '%')
+    if '%(' in text:
+        raise AnalysisError('%s::%s has substitution keys other than type/type_name' % (ufile, section))
+    names = set(re.findall(r'\b(__Pyx_\w+)\s*\(', text))
+    if len(names) != 1:
+        raise AnalysisError('%s::%s does not define exactly one __Pyx_ function' % (ufile, section))
+    return re.sub(r'\b%s\b' % re.escape(names.pop()), fname, text)
+
+
+def original_alternatives(fa):
+    params = [c['name'] for c in fa.get('inner', []) if c.get('kind') == 'ParmVarDecl']
+    if len(params) < 2:
+        raise AnalysisError('declared original: unexpected signature')
+    tree = symbolic_result(fa)
+    tree = rename_vars(tree, {params[0]: 'a', params[1]: 'b'})
+    alts = [tree]
+    for flag in params[2:]:
+        alts = [x for t in alts for x in alternatives(t, flag)]
+    return alts
+
+
+def copy_sites(expanded):
+    """[(original file, section, block text, c type, left var, right var)] for each declared copy in an expanded PyLongBinop (order ObjC)."""
+    out = []
+    plain = strip_c_comments(expanded)
+    consts = {m.group(1).strip(): m.group(2) for m in re.finditer(r'\bconst\s+(long|PY_LONG_LONG)\s+(\w+)\s*=\s*intval\s*;', plain)}
+    others = {}
+    for m in re.finditer(r'^[ \t]*(long|PY_LONG_LONG)\s+(\w+)\s*;', plain, re.M):
+        others.setdefault(m.group(1), m.group(2))
+    for m in COPY_RE.finditer(expanded):
+        blk = enclosing_block(expanded, m.start())
+        if blk is None:
+            raise AnalysisError('declared copy of %s is not inside a block' % m.group(2))
+        body = strip_c_comments(blk)
+        ctype = 'PY_LONG_LONG' if re.search(r'\bPY_LONG_LONG\b', body) else 'long'
+        if ctype not in consts or ctype not in others:
+            raise AnalysisError('operand variables of type %s (const X = intval; and its partner) not found in the expanded function' % ctype)
+        out.append((m.group(1), m.group(2), body, ctype, others[ctype], consts[ctype]))
+    return out
+
+
+SIB_PRELUDE = ('#define CYTHON_INLINE\n#define CYTHON_UNUSED_VAR(x) (void)(x)\ntypedef long long PY_LONG_LONG;\n'
+               'void *PyLong_FromLong(long);\nvoid *PyLong_FromLongLong(long long);\n')
+
+
+def copy_tree(fa, left, right):
+    t = symbolic_result(fa)
+    if t[0] == 'call' and len(t) == 3:
+        t = t[2]
+    return rename_vars(t, {left: 'a', right: 'b'})
+
+
+def rule_sib(ctx, rid):
+    from ..core import Rule
+    from ..engine.cutil import strip_c_comments
+    d = ctx.cat.files.get('Optimize.c', {}).get('PyLongBinop', {}).get('impl')
+    if d is None:
+        raise AnalysisError('Optimize.c::PyLongBinop missing')
+    tree = tpl_tree(d.raw)
+    cop, key = tpl_assigned_dict(tree, 'c_op')
+    if not cop or key != 'op':
+        raise AnalysisError('PyLongBinop: the c_op dispatch table was not found')
+    r = Rule(rid, 'SIB1: every block of PyLongBinop that declares itself a copy of CMath.c DivInt / ModInt computes the same expression tree as the original '
+                  '(modulo variable names and operand type; either arm of the b_is_constant choice)', floor=4)
+    sites = []
+    for op in sorted(cop):
+        if cop[op] not in ('/', '%'):
+            continue
+        text = tpl_expand(tree, dict(op=op, order='ObjC', ret_type=Obj(is_pyobject=True)))
+        for site in copy_sites(text):
+            sites.append((op,) + site)
+    sites.append(('<control>', 'CMath.c', 'DivInt', '{ long q, r; q = a / b; r = a - q*b; q -= ((r != 0) & ((r ^ a) < 0)); return PyLong_FromLong(q); }', 'long', 'a', 'b'))
+    src = SIB_PRELUDE
+    orig_names = {}
+    for op, ufile, section, body, ctype, left, right in sites:
+        if (ufile, section) not in orig_names:
+            orig_names[(ufile, section)] = 'sib_orig_%d' % len(orig_names)
+            src += original_source(ctx, ufile, section, orig_names[(ufile, section)]) + '\n'
+    for i, (op, ufile, section, body, ctype, left, right) in enumerate(sites):
+        src += 'void *sib_copy_%d(%s %s, %s %s) %s\n' % (i, ctype, left, ctype, right, body)
+    decls = clang_functions(src, 'sib_')
+    originals = {}
+    for k, name in orig_names.items():
+        if name not in decls:
+            raise AnalysisError('clang did not return the original %s::%s' % k)
+        originals[k] = original_alternatives(decls[name])
+    control = False
+    for i, (op, ufile, section, body, ctype, left, right) in enumerate(sites):
+        if 'sib_copy_%d' % i not in decls:
+            raise AnalysisError('clang did not return the declared copy %s/%s' % (op, section))
+        t = copy_tree(decls['sib_copy_%d' % i], left, right)
+        same = t in originals[(ufile, section)]
+        if op == '<control>':
+            control = not same
+            continue
+        key = 'PyLongBinop(%s):%s:%s' % (op, section, ctype)
+        r.inst(key, sample='%s = %s' % (key, tree_text(t)[:120]))
+        if not same:
+            r.violate(key, 'Cython/Utility/Optimize.c', 0,
+                      'the %s block of PyLongBinop(op=%s) says "see %s :: %s" but computes %s where the original computes %s: '
+                      'Python-object and C-integer %s disagree for some sign combination'
+                      % (ctype, op, ufile, section, tree_text(t), ' or '.join(tree_text(x) for x in originals[(ufile, section)]),
+                         'floor division' if 'Div' in section else 'modulo'))
+    r.positive_control(control, 'copy testing the sign of a instead of b')
+    return r
